@@ -15,6 +15,18 @@ import (
 
 var pillarAccessor = regexp.MustCompile(`^Get(Year|Month|Day|Time)(Gan|Zhi|InGanZhi)(Index)?(ByLiChun|Exact2|Exact)?$`)
 
+// pillarField: the pillar-index fields of Lunar, read directly (Lunar.dayGanIndexExact2 ...), in the shape of
+// pillarAccessor's groups.
+var pillarFieldRe = regexp.MustCompile(`^Lunar\.(year|month|day|time)(Gan|Zhi)Index(ByLiChun|Exact2|Exact)?$`)
+
+func pillarFieldParts(f string) []string {
+	m := pillarFieldRe.FindStringSubmatch(f)
+	if m == nil {
+		return nil
+	}
+	return []string{m[0], strings.ToUpper(m[1][:1]) + m[1][1:], m[2], "Index", m[3]}
+}
+
 // pillarKeyedMaps: the package-level maps whose key set is exactly the sixty pillars.
 func pillarKeyedMaps(c *Ctx, v *vocab) map[string]*TVal {
 	out := map[string]*TVal{}
@@ -104,15 +116,21 @@ func r08_10(c *Ctx, r *Report) {
 						return absPtr{"lunar", false}, true
 					}
 				}
-				call, ok := x.(*ssa.Call)
-				if !ok || call.Common().StaticCallee() == nil {
-					return nil, false
+				var m []string
+				if _, f, ok := getterField(c, x); ok {
+					m = pillarFieldParts(f) // a direct read of the field, or its plain getter
 				}
-				callee := call.Common().StaticCallee()
-				if callee.Signature.Recv() == nil || structName(callee.Signature.Recv().Type()) != "Lunar" {
-					return nil, false
+				if m == nil {
+					call, ok := x.(*ssa.Call)
+					if !ok || call.Common().StaticCallee() == nil {
+						return nil, false
+					}
+					callee := call.Common().StaticCallee()
+					if callee.Signature.Recv() == nil || structName(callee.Signature.Recv().Type()) != "Lunar" {
+						return nil, false
+					}
+					m = pillarAccessor.FindStringSubmatch(callee.Name())
 				}
-				m := pillarAccessor.FindStringSubmatch(callee.Name())
 				if m == nil {
 					return nil, false
 				}
